@@ -25,6 +25,7 @@ func init() {
 			{"AGG-FILTER-GATE", ruleAggFilterGate},
 			{"FILTER-KEY-NOT-A-FIELD", ruleFilterKeyNotAField},
 			{"AGG-SIBLING-CASES", ruleAggSiblingCases},
+			{"ARRAY-KIND-COVERAGE", ruleArrayKindCoverage},
 			{"LIMIT-TABLE", ruleLimitTable},
 			{"INDEX-GUARD", func(c *eng.Ctx) { ruleIndexGuard(c, "INDEX-GUARD", []string{"internal/planner"}, 5) }},
 		},
